@@ -356,7 +356,7 @@ TABLE = {
           ('oracle_decides_the_characterisation', 'c17_check_spec', []),
           ('applies_to_every_state_reached_by_calls_with_canonical_names', '@canonical_history_summary', []),
           ]),
- 'C18': ('Base Digraph DigraphProofs DSep DSepProofs Identify IdentifyProofs IdentifyDSep Names Graph GraphObs GraphInv Bridge BridgeProofs',
+ 'C18': ('Base Digraph DigraphProofs DSep DSepProofs Identify IdentifyProofs IdentifyDSep Names Graph GraphObs GraphInv Bridge BridgeProofs PyRt IdentifyGenLemmas IdentifyGenConf IdentifyGenConfProofs',
          'C18 — identified confounders are common causes that close every back-door path.\n'
          '    The sufficiency clause is FALSE of the faithful model and of the code (recorded finding F12):\n'
          '    [sufficiency_refuted] is the witness; the finite statement for all DAGs on <= 4 nodes holds.',
@@ -367,8 +367,11 @@ TABLE = {
           ('sufficiency_refuted', 'conf_sufficient_refuted', ['conf_sufficient_statement']),
           ('sufficiency_holds_on_all_dags_le4', 'conf_sufficient_le4', []),
           ('applies_to_every_validated_reachable_state', '@reachable_confounders_common_ancestors', []),
+          ('translated_source_of_the_confounder_search_equals_the_model_and_restores_the_graph', '@gen_helper_spec', []),
+          ('translated_source_of_identify_confounders_equals_the_model_for_every_set_iteration_order', '@gen_confounders_equiv', []),
+          ('translated_input_checks_refuse_exactly_non_dags_unknown_and_equal_nodes', '@gen_verify_cases', []),
           ]),
- 'C19': ('Base Digraph DigraphProofs DSep DSepProofs Identify IdentifyProofs IdentifyDSep Extracted SourceFacts SFIdentify InstrumentsGen',
+ 'C19': ('Base Digraph DigraphProofs DSep DSepProofs Identify IdentifyProofs IdentifyDSep Extracted SourceFacts SFIdentify InstrumentsGen PyRt IdentifyGenLemmas IdentifyGenConf IdentifyGenIM IdentifyGenConfProofs IdentifyGenIMProofs',
          'C19 — identified instruments and mediators satisfy their graphical criteria.',
          [('mediators_exact_characterisation', '@med_spec', []),
           ('mediators_lie_between', '@med_between', []),
@@ -386,8 +389,12 @@ TABLE = {
           ('confounder_set_is_empty_exactly_without_a_common_cause', '@conf_nonempty_iff', []),
           ('no_common_cause_means_d_separated_given_the_empty_set', '@ig_dsep_empty', []),
           ('instruments_exact_characterisation_without_the_path_clause', '@inst_spec_no_paths', []),
+          ('translated_source_of_identify_instruments_equals_the_model_for_every_set_iteration_order', '@gen_instruments_equiv', []),
+          ('translated_source_of_identify_mediators_equals_the_model_for_every_set_iteration_order', '@gen_mediators_equiv', []),
+          ('translated_identify_instruments_raises_exactly_beyond_the_path_limit', '@gen_instruments_raises', []),
+          ('translated_identify_mediators_raises_exactly_beyond_the_path_limit', '@gen_mediators_raises', []),
           ]),
- 'C20': ('Base Digraph DSep DSepProofs Markov MarkovProofs Names Graph GraphObs GraphInv Bridge BridgeProofs Extracted SourceFacts SFIdentify',
+ 'C20': ('Base Digraph DSep DSepProofs Markov MarkovProofs Names Graph GraphObs GraphInv Bridge BridgeProofs Extracted SourceFacts SFIdentify PyRt IdentifyGenLemmas IdentifyGenConf IdentifyGenMB IdentifyGenMBProofs',
          'C20 — Markov boundaries shield their node; colliders are the nodes with two arrowheads.',
          [('markov_boundary_is_parents_children_coparents', '@mb_spec', []),
           ('markov_boundary_shields', '@mb_shields', []),
@@ -401,6 +408,9 @@ TABLE = {
           ('applies_to_every_validated_reachable_state', '@reachable_markov_boundary_shields', []),
           ('colliders_on_every_reachable_state', '@reachable_colliders_spec', []),
           ('identify_defaults_in_source_are_the_modelled_ones', 'identify_defaults', []),
+          ('translated_source_of_identify_markov_boundary_equals_the_model', '@gen_markov_boundary_equiv', []),
+          ('translated_identify_markov_boundary_answers_for_every_node_of_a_dag', 'gen_markov_total_holds', []),
+          ('translated_source_of_identify_colliders_equals_the_model_on_every_mixed_graph', '@gen_colliders_equiv', []),
           ]),
 }
 
